@@ -15,6 +15,10 @@ LEVEL = "model_checking"
 BOUND = 4  # |Re c|, |Im c| <= BOUND for every symbolic coefficient (stated bound)
 TOL1 = 4e-8  # single operation: at most one dropped (<= 1e-8) sum per string
 REPLAY_TOL1 = 2e-8
+# simplify() alone makes exactly one drop decision per Pauli string (|summed coefficient| <= 1e-8, numpy.isclose to 0 with
+# atol 1e-8), so in exact arithmetic it moves no coefficient by more than 1e-8: asserted with a 0.1 % margin
+TOL_SIMPLIFY = 1.001e-8
+REPLAY_TOL_SIMPLIFY = 1.0005e-8
 
 
 def pow_tolerance(spec, k):
@@ -207,7 +211,7 @@ def _w_arith(res, p):
             raise ST.Inconclusive("NaN poison: a symbolic value was concretised silently")
         cmR = PL.cmap_of(R)
         exp = expected_cm(op, cmA, cmB, (complex(*p["B"][1]) if isinstance(p["B"][1], list) else p["B"][1]) if op == "/" else None)
-        tol = pow_tolerance(p["A"], int(op[2:])) if op.startswith("**") else TOL1
+        tol = pow_tolerance(p["A"], int(op[2:])) if op.startswith("**") else (TOL_SIMPLIFY if op == "simplify" else TOL1)
         claims = []
         for k in sorted(set(cmR) | set(exp), key=lambda kk: sorted(kk)):
             claims.append(_within(cmR.get(k, 0) - exp.get(k, 0), tol))
@@ -481,7 +485,7 @@ def run(ctx):
         "term_x_term": "every ordered pair of Pauli strings on <= %d qubits (plus gapped strings), both coefficients symbolic complex" % (2 if ctx.tier == "quick" else 3),
         "sums": "operands: 8 sums (empty, duplicates, zero coefficient, cancelling pair, constants; <= 3 terms) and 4 terms, symbolic complex/real coefficients; + - * between all sampled pairs, scalars {2.5,-3,1+2j,0.5j,0} on either side, / by scalars, simplify, powers 0..%d" % (3 if ctx.tier == "quick" else 4),
         "coefficients": f"|Re c|, |Im c| <= {BOUND}",
-        "tolerance": f"{TOL1} per Pauli string for one operation (simplify may drop one sum <= 1e-8); for powers the compounded bound pow_tolerance(A, k) derived from the library's drop-after-every-product rule and the coefficient bound",
+        "tolerance": f"{TOL_SIMPLIFY} per Pauli string for simplify() itself (one drop decision per string), {TOL1} per Pauli string for one arithmetic operation (operands and result may each be simplified); for powers the compounded bound pow_tolerance(A, k) derived from the library's drop-after-every-product rule and the coefficient bound",
     }
     ctx.assume(
         "floats are modelled as exact reals: rounding of Python complex multiplication is outside the claim",
@@ -542,7 +546,7 @@ def replay(data):
         exp = expected_cm(op, cmA, cmB, (complex(*inp["B"][1]) if isinstance(inp["B"][1], list) else inp["B"][1]) if op == "/" else None)
         cmR = PL.cmap_of(R)
         dist = max([abs(complex(cmR.get(k, 0)) - complex(exp.get(k, 0))) for k in set(cmR) | set(exp)] or [0.0])
-        tol = pow_tolerance(inp["A"], int(op[2:])) / 2 if op.startswith("**") else REPLAY_TOL1
+        tol = pow_tolerance(inp["A"], int(op[2:])) / 2 if op.startswith("**") else (REPLAY_TOL_SIMPLIFY if op == "simplify" else REPLAY_TOL1)
         return bool(dist > tol), f"max coefficient difference {dist:.3g} (tolerance {tol}) at {vals}"
     except Exception:
         import traceback
